@@ -1018,7 +1018,7 @@ pub fn replay_line(line: &str, o: &mut Out) {
                 bad(o)
             }
         }
-        "sat" => match (f.get(1).and_then(|x| unhex(x)), f.get(2).and_then(|x| dec_version(x))) {
+        "sat" => match (f.get(1).and_then(|x| unhex(x)), f.get(3).and_then(|x| dec_version(x))) {
             (Some(t), Some(v)) => match Range::parse(&t) {
                 Ok(r) => o.sat(&t, &r, &v),
                 Err(_) => bad(o),
@@ -1037,7 +1037,7 @@ pub fn replay_line(line: &str, o: &mut Out) {
             // arguments: range text, then versions, then (possibly) the old answer
             let t = f.get(1).and_then(|x| unhex(x));
             let mut vs = Vec::new();
-            for x in &f[2..] {
+            for x in f.iter().skip(3) {
                 // the old answer is `none` or a version; a trailing version-shaped answer would be
                 // mistaken for an element, so stored lines keep the answer field as `?`
                 if *x == "?" || *x == "none" {
